@@ -2,8 +2,8 @@ SPECIFICATION Spec
 VIEW view
 CONSTANTS
   OffsMod = 65536
-  Atoms <- AtomsRpl
-  Heads <- HeadsRpl
+  Atoms <- AtomsSel
+  Sel = "rpl"
   MaxLen = 40
   Cfgs <- CfgsFL
   Junk = 34
